@@ -149,7 +149,7 @@ class Cfg(object):
     def __init__(self, profile="pubsub", model="sync", close_delay=0.0, jitter="const",
                  jitter_value=0.5, seed=0, ondisc=True, onconn=False, onpub=True,
                  re_pub_on_fail=False, re_pub_on_connmade=False, re_echo=False,
-                 re_connect_on_disc=False, late=0.0):
+                 re_connect_on_disc=False, late=0.0, re_disc_on=None):
         self.__dict__.update(locals())
         del self.__dict__["self"]
 
@@ -203,6 +203,7 @@ class World(object):
         self.last_raised = None
         self.in_api = None
         self.created_mark = 0
+        self.disc_done = False
 
     # ------------------------------------------------------------- trace
 
@@ -334,6 +335,8 @@ class World(object):
                     args=(topic, bytes(payload) if isinstance(payload, (bytes, bytearray)) else payload,
                           qos, dup, retain, msgId),
                     ptype=type(payload).__name__, ttype=type(topic).__name__)
+            if cfg.re_disc_on == "onpublish":
+                self._re_disconnect(c, "onpublish")
             if cfg.re_echo and self.depth == 0:
                 self.depth += 1
                 try:
@@ -355,6 +358,8 @@ class World(object):
 
         def on_connmade():
             self.ev("cb", name="onMqttConnectionMade", conn=c.idx, a=c.a)
+            if cfg.re_disc_on == "connmade":
+                self._re_disconnect(c, "connmade")
             if cfg.re_pub_on_connmade and self.depth == 0:
                 self.depth += 1
                 try:
@@ -366,7 +371,7 @@ class World(object):
             p.onPublish = on_publish
         if cfg.ondisc:
             p.onDisconnection = on_disc
-        if cfg.onconn or cfg.re_pub_on_connmade:
+        if cfg.onconn or cfg.re_pub_on_connmade or cfg.re_disc_on == "connmade":
             p.onMqttConnectionMade = on_connmade
 
     def _api(self, c, op, fn, args, info):
@@ -414,11 +419,27 @@ class World(object):
                             self.depth -= 1
                 else:
                     self.ev("fire", did=did, ok=True, value=_plain(res), op=op, conn=c.idx, a=c.a)
+                    where = self.cfg.re_disc_on
+                    if ((where == "ack" and op == "publish" and info.get("qos")) or
+                            (where == "suback" and op in ("subscribe", "unsubscribe")) or
+                            (where == "connected" and op == "connect")):
+                        self._re_disconnect(c, where)
                 return None
             r.addBoth(rec)
             return r
         self.ev("api_ret", op=op, conn=c.idx, call=call["i"], ret=_plain(r))
         return r
+
+    def _re_disconnect(self, c, where):
+        """An application that disconnects from inside one of its callbacks."""
+        if self.depth or self.ended or self.disc_done:
+            return
+        self.disc_done = True
+        self.depth += 1
+        try:
+            self._api(c, "disconnect", c.proto.disconnect, ((), {}), {"why": "from-" + where})
+        finally:
+            self.depth -= 1
 
     def _topic(self, kind, tok):
         base = "t/~%06d~" % tok
@@ -739,6 +760,39 @@ class World(object):
             pkt["codes"] = [1]
         self._send(a, pkt)
 
+    def s_cross(self, a, kind):
+        """An acknowledgement whose type does not fit the request holding the identifier
+        (PUBACK for a QoS 2 message, SUBACK for a pending UNSUBSCRIBE, ...)."""
+        other = {"PUBACK": ("PUBREC", "SUBACK"), "PUBREC": ("PUBACK", "UNSUBACK"), "PUBCOMP": ("PUBACK", "PUBREC"),
+                 "SUBACK": ("UNSUBACK", "PUBACK", "PUBCOMP"), "UNSUBACK": ("SUBACK", "PUBREC")}[kind]
+        ids = []
+        for o in other:
+            ids.extend(self.outstanding(a, o))
+        if not ids:
+            return self.ev("skip", why="nothing to cross-acknowledge")
+        pkt = {"t": kind, "id": ids[0]}
+        if kind == "SUBACK":
+            pkt["codes"] = [0]
+        self._send(a, pkt)
+
+    def s_preack(self, a, kind):
+        """A broker that acknowledges before it has sent its CONNACK."""
+        c = self.live.get(a)
+        if c is None or not c.connect_seen or c.connack_ok:
+            return self.ev("skip", why="not connecting")
+        sh = self.shadow[a]
+        if kind == "PUBACK":
+            ids = [i for i, v in sh.pub.items() if v["qos"] == 1 and v["state"] == "sent"]
+        elif kind == "PUBREC":
+            ids = [i for i, v in sh.pub.items() if v["qos"] == 2 and v["state"] == "sent"]
+        elif kind == "PUBCOMP":
+            ids = [i for i, v in sh.pub.items() if v["state"] == "rel"]
+        else:
+            ids = []
+        if not ids:
+            return self.ev("skip", why="nothing sent before CONNACK")
+        self._send(a, {"t": kind, "id": ids[-1]})
+
     def s_early(self, a, kind):
         """Out-of-order acknowledgement inside a QoS 2 exchange: PUBCOMP
         before PUBREC."""
@@ -932,7 +986,7 @@ def _cause_of(op):
         return "timer"
     if op in ("lose",):
         return "loss"
-    if op in ("connack", "ack", "dupack", "stray", "early", "inpub", "inrel", "pingresp", "raw", "stream"):
+    if op in ("connack", "ack", "dupack", "stray", "early", "cross", "preack", "inpub", "inrel", "pingresp", "raw", "stream"):
         return "inbound"
     return "api"
 
